@@ -235,6 +235,10 @@ mut("C04", "newton-per-entry", E + "Simulations/_simu.py", "            dofsValu
 mut("C04", "bounds-not-reduced", E + "Simulations/Solvers.py", "        lb, ub = lb[dofsUnknown], ub[dofsUnknown]", "        lb, ub = lb, ub", "R4.1")
 same("C04", "bounds-size-test", E + "Simulations/Solvers.py", "    if len(lb) > 0:", "    if len(lb) != 0:")
 mut("C08", "inverse-map-residual", E + "FEM/_group_elem.py", "                        J = N[0, 0] @ coordElemBase[:, :dim] - xP  # cost function", "                        J = N[0, 0] @ coordElemBase[:, :dim] + xP  # cost function", "R8.8")
+mut("C08", "rotate-transposed", E + "Geoms/_utils.py", 'np.einsum("ij,nj->ni", rotMat, oldCoord - center, optimize="optimal") + center', 'np.einsum("ji,nj->ni", rotMat, oldCoord - center, optimize="optimal") + center', "R8.13")
+mut("C08", "rotate-no-radians", E + "Geoms/_utils.py", "    theta *= np.pi / 180\n", "    theta *= np.pi / 360\n", "R8.13")
+mut("C08", "rotate-centre-not-restored", E + "Geoms/_utils.py", 'np.einsum("ij,nj->ni", rotMat, oldCoord - center, optimize="optimal") + center', 'np.einsum("ij,nj->ni", rotMat, oldCoord - center, optimize="optimal")', "R8.13")
+same("C08", "rotate-matmul-form", E + "Geoms/_utils.py", 'np.einsum("ij,nj->ni", rotMat, oldCoord - center, optimize="optimal") + center', '(oldCoord - center) @ rotMat.T + center')
 same("C08", "inverse-map-two-steps", E + "FEM/_group_elem.py", "                        J = N[0, 0] @ coordElemBase[:, :dim] - xP  # cost function", "                        x_of_xi = N[0, 0] @ coordElemBase[:, :dim]\n                        J = x_of_xi - xP  # cost function")
 mut("C09", "lineload-frame-transposed", E + "Simulations/_beam.py", "                P_e[:, row % 3, :],", "                P_e[:, :, row % 3],", "R9.7")
 mut("C14", "new-mesh-not-observed", E + "Simulations/_simu.py", "            # the simulation looks for modifications of the new mesh too\n            mesh._Add_observer(self)\n", "", "R14.17")
